@@ -4,7 +4,8 @@
     ones proved in Proofs/C09.v) over the models and the text generated from the current source
 (b) error-kind sweep over all public entry points of the real implementation (locate_droplets, locate_droplets_in_mask,
     refine_droplet, get_phase_field / _get_phase_field / Emulsion.get_phasefield, polar_coordinates,
-    DropletTrackList.from_emulsion_time_course, DropletTracker / LengthScaleTracker.handle), biased to degenerate input
+    DropletTrackList.from_emulsion_time_course, SphericalDroplet.overlaps / Emulsion.get_pairwise_distances /
+    Emulsion.remove_overlapping with a grid, DropletTracker / LengthScaleTracker.handle), biased to degenerate input
 (c) the observed outcome kinds compared with the model guards INSIDE Coq (modes guard, dimension guard, tracking)
 (d) evidence
 
@@ -57,7 +58,10 @@ ASSUME = [
 ]
 RULE = ("one evaluation = one call of a public entry point; streams: corpus of the repaired defects (F2-F5, F10, F23), locate_droplets without / with refinement, "
         "locate_droplets_in_mask, refine_droplet on located candidates, rendering (5 classes, all compatible families, "
-        "emulsions, dimension mismatch), polar_coordinates, tracking (both methods, +-grid, 3 cut-offs), tracker handles; "
+        "emulsions, dimension mismatch), polar_coordinates, tracking (both methods, +-grid, 3 cut-offs; grid= Cartesian and -- with droplets on "
+        "the symmetry centre / axis and consecutive populated frames -- polar, spherical, cylindrical +- periodic z), the distance "
+        "primitives of tracking as entry points (SphericalDroplet.overlaps, Emulsion.get_pairwise_distances, Emulsion.remove_overlapping "
+        "with grid= every family or None, coincident droplets included), tracker handles; "
         "grids: Cartesian 1-3 d, 1..6 cells per axis, every periodicity mask, isotropic / anisotropic spacing, polar, spherical, "
         "cylindrical +- periodic_z (1..6 cells); fields: constants 0 / 1 / 0.7, single bright cell, all ones, binary noise, "
         "smooth noise, off-axis-only blobs, rendered droplets, each also affinely rescaled (x1000 - 5, x1 + 5, x0.25 + 5); options: the full "
@@ -483,6 +487,32 @@ def _run_case(case: dict) -> dict:
         if len(drops) != total:
             bad.append(f"{len(drops)} droplets in the tracks, {total} in the time course")
         return {"kind": "ok", "n": len(tracks), "nonfinite": bad}
+    if entry in ("overlaps", "get_pairwise_distances", "remove_overlapping"):
+        from droplets import Emulsion
+        grid = make_grid(case["grid"]) if case["grid"] is not None else None
+        drops = [make_droplet(d) for d in case["droplets"]]
+        try:
+            if entry == "overlaps":
+                res = [drops[0].overlaps(d, grid=grid) for d in drops[1:]] + [drops[-1].overlaps(drops[0], grid)]
+                bad = [f"overlaps returned {r!r} ({type(r).__name__}), not a truth value" for r in res
+                       if not isinstance(r, (bool, np.bool_))]
+                return {"kind": "ok", "n": len(res), "nonfinite": bad[:1]}
+            if entry == "get_pairwise_distances":
+                m = np.asarray(Emulsion(drops).get_pairwise_distances(subtract_radius=case["subtract_radius"], grid=grid))
+                bad = []
+                if m.shape != (len(drops), len(drops)):
+                    bad.append(f"distance matrix of shape {m.shape} for {len(drops)} droplets")
+                elif np.iscomplexobj(m) or not np.all(np.isfinite(m)):
+                    bad.append("distance matrix with non-finite or complex entries")
+                return {"kind": "ok", "n": len(drops), "nonfinite": bad}
+            em = Emulsion(drops)
+            em.remove_overlapping(min_distance=case["min_distance"], grid=grid)
+        except Exception as e:  # noqa
+            return exc_record(e)
+        bad = finite_failures(em)
+        if len(em) > len(drops):
+            bad.append(f"{len(em)} droplets after removing from {len(drops)}")
+        return {"kind": "ok", "n": len(em), "nonfinite": bad}
     raise ValueError(entry)
 
 
@@ -911,6 +941,66 @@ def gen_track_cases(ctx, rng):
     return cases
 
 
+def axis_droplets(rng, gs, cls, n):
+    """valid droplets of a symmetric grid: on the symmetry centre (polar, spherical) / on the axis (cylindrical)"""
+    fam = gs["family"]
+    out = []
+    for _ in range(n):
+        if fam == "cylindrical":
+            z0, z1 = gs["bounds_z"]
+            pos = [0.0, 0.0, rng.choice([rng.uniform(z0, z1), z0, z1, z0 + 0.5 * (z1 - z0)])]
+            ext = max(gs["radius"], z1 - z0)
+        else:
+            pos, ext = [0.0] * grid_dim(gs), gs["radius"][1]
+        d = {"cls": cls, "position": pos, "radius": rng.choice([rng.uniform(0.05, ext), 0.0, 0.5, ext])}
+        if cls == "DiffuseDroplet":
+            d["width"] = rng.choice([None, 0.5])
+        out.append(d)
+    return out
+
+
+def gen_symmetric_track_cases(ctx, rng):
+    """tracking with grid= a polar / spherical / cylindrical (+- periodic z) grid, both methods, consecutive populated frames"""
+    cases = []
+    for i in range(ctx.scale(400, 3000)):
+        gs = gen_grid(rng, ["polar", "spherical", "cylindrical", "cylindrical"][i % 4])
+        cls = rng.choice(["SphericalDroplet", "DiffuseDroplet"])
+        nf = rng.choice([2, 2, 3, 4, 6])
+        frames = []
+        for _f in range(nf):
+            k = rng.choice([1, 1, 2, 3]) if gs["family"] == "cylindrical" else rng.choice([1, 1, 2])
+            frames.append([] if rng.random() < 0.15 else axis_droplets(rng, gs, cls, k))
+        times = [0.5 * k for k in range(nf)]
+        for method in ("overlap", "distance"):
+            cases.append({"entry": "from_emulsion_time_course", "times": times, "frames": frames, "method": method,
+                          "max_dist": rng.choice([None, 0.5, 2.0]) if method == "distance" else None, "grid": gs})
+    return cases
+
+
+def gen_overlap_cases(ctx, rng):
+    """SphericalDroplet.overlaps / Emulsion.get_pairwise_distances / Emulsion.remove_overlapping with grid= every family (and None)"""
+    cases = []
+    fams = ["cart1", "cart2", "cart3", "polar", "spherical", "cylindrical", "cylindrical"]
+    for i in range(ctx.scale(1400, 10000)):
+        gs = gen_grid(rng, fams[i % len(fams)], max3=6)
+        cls = rng.choice(["SphericalDroplet", "DiffuseDroplet"])
+        n = rng.choice([2, 2, 3, 5])
+        if gs["family"] == "cartesian":
+            drops = [gen_valid_droplet(rng, cls, gs) for _ in range(n)]
+        else:
+            drops = axis_droplets(rng, gs, cls, n)
+        if rng.random() < 0.2:
+            drops[-1] = dict(drops[0])     # coincident droplets
+        entry = ["overlaps", "get_pairwise_distances", "remove_overlapping"][(i // len(fams)) % 3]
+        case = {"entry": entry, "grid": gs if rng.random() < 0.85 else None, "droplets": drops}
+        if entry == "get_pairwise_distances":
+            case["subtract_radius"] = rng.random() < 0.5
+        if entry == "remove_overlapping":
+            case["min_distance"] = rng.choice([0, 0, 0.5, -0.5])
+        cases.append(case)
+    return cases
+
+
 def gen_tracker_cases(ctx, rng):
     cases = []
     for _ in range(ctx.scale(300, 2000)):
@@ -1022,7 +1112,12 @@ def record_hist(ctx, case, res, cls):
         ctx.count("refine", ("refine_args=" + json.dumps(REFINE_ARGS[o["refine_args"]])) if o["refine"] else "off")
     if res["kind"] == "ok" and entry in ("locate_droplets", "locate_droplets_in_mask"):
         ctx.count("droplets_returned", min(res["n"], 5) if res["n"] < 5 else "5+")
+    if entry in ("overlaps", "get_pairwise_distances", "remove_overlapping"):
+        ctx.count("overlap_api", entry + (" grid=None" if case["grid"] is None else " grid=" + family_name(case["grid"])))
+        ctx.count("droplets_in_call", len(case["droplets"]))
     if entry == "from_emulsion_time_course":
+        ctx.count("track_grid", "none" if case["grid"] is None else family_name(case["grid"]))
+        ctx.count("consecutive_populated_frames", "yes" if any(a and b for a, b in zip(case["frames"], case["frames"][1:])) else "no")
         ctx.count("track_method", case["method"] + ("" if case["grid"] is None else "+grid"))
         ctx.count("frames", len(case["frames"]))
         ctx.count("empty_frames", sum(1 for f in case["frames"] if not f))
@@ -1066,7 +1161,7 @@ def check(ctx: vlib.Ctx) -> int:
             corpus_fails.append({"what": f"corpus replay {name} (repaired defect): {msg}", "input": {"corpus": name}})
     streams = [("locate", gen_locate_cases), ("mask", gen_mask_cases), ("refine", gen_refine_cases),
                ("render", gen_render_cases), ("polar", gen_polar_cases), ("track", gen_track_cases),
-               ("tracker", gen_tracker_cases)]
+               ("track-symmetric-grid", gen_symmetric_track_cases), ("overlap-api", gen_overlap_cases), ("tracker", gen_tracker_cases)]
     cases = []
     for name, gen in streams:
         cs = gen(ctx, rng)
